@@ -4,11 +4,20 @@ from sem import run_semantic
 from props._semprop import fill
 from common import seed
 
+from common import prove
+
+MODULE = 'Proofs.Props.C04'
+THEOREMS = ['Facto.ring_iterates', 'Facto.ring_latency', 'Facto.self_feedback']
+
 
 def run(res, tier):
+    proved = prove(res, MODULE, THEOREMS)
     n = 48 if tier == "quick" else 600
     base = seed() * 100003
     srcs = [gen_iterate(base + i) for i in range(n)]
     sources = [(s, {"optimize": True}) for s in srcs] + [(s, {"optimize": False}) for s in srcs]
     recs, infos, stats = run_semantic(res, sources, extra_case={"window": 40 if tier == "quick" else 160, "maxL": 12})
     fill(res, infos, stats, [s for s, _ in sources], "seeded generator of always-write cells whose written value is a chain of 1-4 arithmetic steps over the cell, constants and held inputs; each compiled with optimisation on and off; the check finds L with value(t+L) = f(value t) on a window of ticks from the zero state")
+    if not proved:
+        res.violation({"reason": "a proof obligation of C04 no longer checks", "problems": res.proof_problems,
+                       "log": res.proof_log[-1500:], "obligation": MODULE}, failing_input=False)
